@@ -583,3 +583,116 @@ Proof.
     as [_ [A' HG]].
   exists A'. split; [exact HG|]. vm_compute. repeat split; reflexivity.
 Qed.
+
+(* ---------- rings whose pointers start at an arbitrary base ---------- *)
+(* The checker with a base is the plain checker run on a history that is preceded by [base] accepted and
+   consumed bytes P: everything it looks at (lengths, slices at or after the consumed position, absolute
+   positions) is the same. *)
+Definition shifted (b : Z) (P : list Z) (st st' : cst) : Prop :=
+  acc st' = P ++ acc st /\ consumed st' = b + consumed st.
+
+Lemma zslice_shift (P A : list Z) b c n :
+  zlen P = b -> 0 <= c -> zslice (P ++ A) (b + c) n = zslice A c n.
+Proof.
+  intros HP Hc. unfold zslice. f_equal. unfold zskipn, zlen in *.
+  rewrite skipn_app. replace (Z.to_nat (b + c) - length P)%nat with (Z.to_nat c) by lia.
+  rewrite skipn_all2 by lia. reflexivity.
+Qed.
+
+Lemma check_step_at_shift b P st st' o ob :
+  zlen P = b -> 0 <= consumed st -> shifted b P st st' ->
+  match check_step_at b st o ob, check_step st' o ob with
+  | Some s1, Some s2 => shifted b P s1 s2 /\ 0 <= consumed s1
+  | None, None => True
+  | _, _ => False
+  end.
+Proof.
+  intros HP Hc [HA HC]. destruct st as [A c], st' as [A' c']. cbn [acc consumed] in *. subst A' c'.
+  pose proof (zlen_nonneg A) as HlA. pose proof (zlen_nonneg P) as HlP.
+  assert (Hlen : zlen (P ++ A) = b + zlen A) by (rewrite zlen_app; lia).
+  assert (Hfin : forall (X : list Z) (cc : Z), 0 <= cc ->
+     match (if o_readable ob =? zlen (A ++ X) - cc then Some {| acc := A ++ X; consumed := cc |} else None),
+           (if o_readable ob =? zlen ((P ++ A) ++ X) - (b + cc) then Some {| acc := (P ++ A) ++ X; consumed := b + cc |} else None)
+     with Some s1, Some s2 => shifted b P s1 s2 /\ 0 <= consumed s1 | None, None => True | _, _ => False end).
+  { intros X cc Hcc. rewrite !zlen_app.
+    replace (zlen P + zlen A + zlen X - (b + cc)) with (zlen A + zlen X - cc) by lia.
+    destruct (o_readable ob =? zlen A + zlen X - cc); [|exact I].
+    split; [|exact Hcc]. split; cbn [acc consumed]; [now rewrite app_assoc | reflexivity]. }
+  assert (Hfin0 : forall cc : Z, 0 <= cc ->
+     match (if o_readable ob =? zlen A - cc then Some {| acc := A; consumed := cc |} else None),
+           (if o_readable ob =? zlen (P ++ A) - (b + cc) then Some {| acc := P ++ A; consumed := b + cc |} else None)
+     with Some s1, Some s2 => shifted b P s1 s2 /\ 0 <= consumed s1 | None, None => True | _, _ => False end).
+  { intros cc Hcc. specialize (Hfin [] cc Hcc). now rewrite !app_nil_r in Hfin. }
+  assert (Hdata : forall D : list Z,
+     (b + c + zlen D <=? zlen (P ++ A)) && zlist_eqb D (zslice (P ++ A) (b + c) (zlen D))
+     = (c + zlen D <=? zlen A) && zlist_eqb D (zslice A c (zlen D))).
+  { intros D. rewrite Hlen, zslice_shift by assumption.
+    replace (b + c + zlen D <=? b + zlen A) with (c + zlen D <=? zlen A) by lia. reflexivity. }
+  unfold check_step_at, check_step. cbn [acc consumed].
+  destruct o as [d|n|k| |k| ]; destruct (o_ret ob) as [wn|D| | | ]; try exact I;
+    try (apply Hfin0; exact Hc).
+  - (* Write *) destruct ((0 <=? wn) && (wn <=? zlen d)); [apply Hfin; exact Hc | exact I].
+  - (* Read *) rewrite Hdata. pose proof (zlen_nonneg D).
+    destruct ((c + zlen D <=? zlen A) && zlist_eqb D (zslice A c (zlen D)) && (zlen D <=? Z.max 0 n)); [|exact I].
+    replace (b + c + zlen D) with (b + (c + zlen D)) by lia. apply Hfin0; lia.
+  - (* ReadMultipleOf *) rewrite Hdata. pose proof (zlen_nonneg D).
+    destruct ((c + zlen D <=? zlen A) && zlist_eqb D (zslice A c (zlen D)) && (0 <? k) && (zlen D mod k =? 0)); [|exact I].
+    replace (b + c + zlen D) with (b + (c + zlen D)) by lia. apply Hfin0; lia.
+  - (* ReadAll *) rewrite Hdata. pose proof (zlen_nonneg D).
+    destruct ((c + zlen D <=? zlen A) && zlist_eqb D (zslice A c (zlen D))); [|exact I].
+    replace (b + c + zlen D) with (b + (c + zlen D)) by lia. apply Hfin0; lia.
+  - (* DiscardStride *)
+    rewrite Hlen.
+    replace (b + zlen A - o_readable ob) with (b + (zlen A - o_readable ob)) by lia.
+    set (c' := zlen A - o_readable ob).
+    replace (b + c <=? b + c') with (c <=? c') by lia.
+    replace (b + c' <=? b + zlen A) with (c' <=? zlen A) by lia.
+    replace (b + c' =? b + c) with (c' =? c) by lia.
+    destruct ((0 <? k) && (c <=? c') && (c' <=? zlen A) &&
+              (if b + c <=? b + zlen A - (b + zlen A) mod k then is_boundary k (b + c') else c' =? c)) eqn:E; [|exact I].
+    pose proof Hfin0 as H0. rewrite Hlen in H0. apply H0. lia.
+  - (* DiscardAll *)
+    rewrite Hlen.
+    replace (b + zlen A - o_readable ob) with (b + (zlen A - o_readable ob)) by lia.
+    set (c' := zlen A - o_readable ob).
+    replace (b + c <=? b + c') with (c <=? c') by lia.
+    replace (b + c' <=? b + zlen A) with (c' <=? zlen A) by lia.
+    destruct ((c <=? c') && (c' <=? zlen A)) eqn:E; [|exact I].
+    pose proof Hfin0 as H0. rewrite Hlen in H0. apply H0. lia.
+Qed.
+
+Lemma check_from_at_shift b P h : forall st st',
+  zlen P = b -> 0 <= consumed st -> shifted b P st st' ->
+  check_from_at b st h = check_from st' h.
+Proof.
+  induction h as [|[o ob] h IH]; intros st st' HP Hc Hs; [reflexivity|].
+  cbn [check_from_at check_from].
+  pose proof (check_step_at_shift b P st st' o ob HP Hc Hs) as H.
+  destruct (check_step_at b st o ob) as [s1|], (check_step st' o ob) as [s2|]; try contradiction; [|reflexivity].
+  destruct H as [H1 H2]. now apply IH.
+Qed.
+
+Lemma repeat_zlen (b : Z) : 0 <= b -> zlen (repeat 0 (Z.to_nat b)) = b.
+Proof. intros H. unfold zlen. rewrite repeat_length. lia. Qed.
+
+Lemma ginv_create_at c b : 2 <= c -> 0 <= b -> GInv (create_at c b) (repeat 0 (Z.to_nat b)).
+Proof. intros Hc Hb. split; cbn [create_at cap wp rp mem]; rewrite ?repeat_zlen by lia; try lia. Qed.
+
+(* every capacity, every starting position of the free-running pointers, every history *)
+Theorem model_satisfies_checker_at c b ops :
+  2 <= c -> 0 <= b -> C18_check_at b (combine ops (snd (run (create_at c b) ops))) = true.
+Proof.
+  intros Hc Hb. unfold C18_check_at.
+  rewrite (check_from_at_shift b (repeat 0 (Z.to_nat b)) _ {| acc := []; consumed := 0 |}
+             {| acc := repeat 0 (Z.to_nat b); consumed := b |}).
+  - apply (run_checks (create_at c b) _ ops (ginv_create_at c b Hc Hb)).
+  - now apply repeat_zlen.
+  - cbn; lia.
+  - split; cbn [acc consumed]; [now rewrite app_nil_r | lia].
+Qed.
+
+Lemma check_from_at_0 st h : 0 <= consumed st -> check_from_at 0 st h = check_from st h.
+Proof.
+  intros Hc. apply (check_from_at_shift 0 [] h st st); [reflexivity | exact Hc |].
+  split; [reflexivity | lia].
+Qed.
